@@ -175,6 +175,19 @@ def family():
     out.append((spec_n, [{'t': 'RenameAppLabel', 'old': 'vapp', 'new': 'lib', 'legacy': None, 'models': ['Evapps', 'vappNote']}]))
     out.append((spec_n, [{'t': 'RenameAppLabel', 'old': 'vapp', 'new': 'lib', 'legacy': 'vapp', 'models': None},
                          {'t': 'RenameModel', 'old': 'Evapps', 'new': 'Events', 'db_table': 'vapp_evapps'}]))
+    # relations declared with project-defined SUBCLASSES of the relation classes (a ForeignKey subclass, a
+    # ManyToManyField subclass): they are relations like any other
+    spec_s = {'apps': [
+        {'id': 'vapp', 'models': [
+            mdl('vapp', 'Category', [fld('parent', 'TreeKey', 'vapp.Category', null=True)]),
+            mdl('vapp', 'Item', [fld('cat', 'TreeKey', 'vapp.Category', null=True),
+                                 fld('cats', 'TagsField', 'vapp.Category')])]},
+        {'id': 'wapp', 'models': [mdl('wapp', 'Listing', [fld('cat', 'TreeKey', 'vapp.Category', null=True),
+                                                          fld('plain', 'ForeignKey', 'vapp.Category', null=True)])]}]}
+    out.append((spec_s, [rm('Category', 'Section')]))
+    out.append((spec_s, [{'t': 'RenameAppLabel', 'old': 'vapp', 'new': 'lib', 'legacy': None, 'models': None}]))
+    out.append((spec_s, [rm('Category', 'Section'),
+                         {'t': 'RenameAppLabel', 'old': 'vapp', 'new': 'lib', 'legacy': None, 'models': ['Section']}]))
     # an app installed under a custom label goes back to the label it used to have (its own legacy label)
     spec_own = copy.deepcopy(spec)
     spec_own['apps'][0]['legacy'] = 'core'
